@@ -81,6 +81,26 @@ CLAIMED = {
             "Generated documents with gob-fragile content (nested nulls and empty containers in free-form payloads, zero-valued validations on all carriers, the security shapes absent/[]/[{}]/empty scope lists, union types, references) are decoded, sent through encoding/gob and compared with their pre-transport JSON; two genuine baseline defects (zero validations, empty arrays) are listed as known findings by value class so any other loss is still reported.",
             "Documents the JSON codec itself rejects are skipped; trusts encoding/json for the comparison form.",
             "DESIGN.md §3 C14"),
+    "C16": ("exploration",
+            "history monitor: every call of a generated call history over content-varying versions of the same URLs is judged by the independent oracles (O-DEN, designated sub-document) against the version it was given; loader event log per call; invariant hook H4 on the package-level cache at every quiescent point",
+            "Histories of 20 (thorough 60) public calls over three versions of a world that share every URL and the pseudo root but differ at every node, with the package-level loader swapped between calls and a caller-reused option structure; anything remembered from an earlier call shows up as a wrong marker, a missing loader request, a changed option or a changed package cache (keys, identity, JSON vs pinned meta-schemas).",
+            "Worker processes run many histories back to back, so leaks across histories are seen too; the built-in meta-schemas are compared with pinned copies pushed through the same codec.",
+            "DESIGN.md §3 C16"),
+    "C17": ("exploration",
+            "Go race detector (race log counted and de-duplicated by package frames) over barrier-released concurrent workloads with yield hooks H3, differential comparison with sequential answers, porcupine linearizability check of recorded default-cache Get/Set histories, cold-start child processes",
+            "Built with -race: N in {2..64} goroutines x GOMAXPROCS in {1..16} run expansion/resolution on distinct worlds, expansion through one shared cache, Marshal/pointer lookups on a shared document and Get/Set histories on the default cache (checked against a per-key register with unique written values); 64 (thorough 512) fresh child processes release 16 goroutines straight into the lazy initialisation. A DATA RACE block, a crash, a confirmed hang, an answer differing from the sequential one or a non-linearizable history is a violation.",
+            "The race detector reports only races that happen in the executions produced; the first pass of every workload uses hooks without shared memory so that the monitor adds no happens-before edge.",
+            "DESIGN.md §3 C17"),
+    "C18": ("exploration",
+            "offline checkers over loader and cache event logs (at-most-once, never-request-cached, canonical keys) plus differential comparison of results with and without caches (fresh, every pre-loaded subset, reused, reused after a loader fault)",
+            "Every definition of generated multi-document roots is expanded with no cache, fresh caches (the library's own and a recording wrapper), every subset of the external documents pre-loaded, one cache reused over sequences of element expansions, and a cache that lived through a loader fault; results must equal the no-cache result and the request logs must obey the at-most-once and never-request-cached rules.",
+            "Pre-loaded entries are generic JSON under canonical URLs, as the loader path would have stored them.",
+            "DESIGN.md §3 C18"),
+    "C19": ("exploration",
+            "independent validator as oracle: python jsonschema Draft4Validator (pinned Swagger 2.0 schema) over documents recorded by the worker: generated input, re-encoding after decode, result of a successful ExpandSpec",
+            "Schema-valid documents from the generator (checked valid by the independent validator before use) are round-tripped and expanded by the real code; the recorded outputs are validated by the same independent validator; each failure is classified by generalised instance path and validator keyword.",
+            "Format checking off; python jsonschema with its bundled draft-04 meta-schema, nothing fetched.",
+            "DESIGN.md §3 C19"),
     "C20": ("exploration",
             "reference-model monitor (flat keyword map) over exhaustively enumerated validation subsets and clear orders on the real carriers",
             "Every subset of validation keywords on each carrier, every order of the clear operations and 0-3 callbacks are executed against the real accessors and compared, call by call, with a 30-line flat-map model; subsets and orders are enumerated completely, value assignments are sampled.",
